@@ -70,7 +70,8 @@ Proof.
   step 1%nat ltac:(reflexivity).
   rewrite (take_all 512) by exact Hs. cbn [bind fst snd first_ref].
   rewrite (actions_dec_cell ms a Hm Ha). cbn [bind].
-  rewrite (N_u32 (unix32 valid)) by apply unix32_bound. rewrite N_u32 by exact Hq. reflexivity.
+  rewrite (N_u32 (unix32 valid)) by apply unix32_bound. rewrite N_u32 by exact Hq.
+  change (N_of_bits [false]) with 0%N. unfold v5beta_id. reflexivity.
 Qed.
 
 Lemma decode_v5r1_built wid valid seqno ms sg a :
@@ -86,7 +87,7 @@ Proof.
   change (N.eqb op_signed_external op_signed_external) with true. cbn [orb].
   step 32%nat ltac:(apply u32_len). step 32%nat ltac:(apply u32_len). step 32%nat ltac:(apply u32_len).
   change ([true; false] ++ sg) with ([true] ++ [false] ++ sg).
-  step 1%nat ltac:(reflexivity). cbn [nth first_ref].
+  step 1%nat ltac:(reflexivity). cbn [nth first_ref bind].
   rewrite (actions_dec_cell ms a Hm Ha). cbn [bind].
   step 1%nat ltac:(reflexivity). cbn [nth].
   rewrite (take_all 512) by exact Hs. cbn [bind fst snd].
